@@ -38,7 +38,8 @@ def _perm_worker(a):
             if v.prop in PROPS:
                 out.append((v.prop, v.rule, v.sig, "%s\nhistory:\n%s" % (v.text, prun.render_trace(tr)),
                             {"config": SCRIPT_CFG.to_json(), "events": events}))
-        if tr.result and (tr.result["exit"] != 0 or tr.result["sanitizer"]):
+        if tr.result and (tr.result["exit"] != 0 or tr.result["sanitizer"]) and [x for x in tr.result["sanitizer"] if x[0] != "leak"] != [] or (
+                tr.result and tr.result["exit"] not in (0, 97)):
             out.append(("crash", "crash", "crash", "daemon failed on permutation %s: %s" % (perm, tr.result), None))
     return out, stats, [(list(p), True) for p in perms]
 
@@ -79,7 +80,7 @@ def run(chk, tier, scale=1.0):
         chk.merge_counts({k: v for k, v in stats.items() if k in ("verdicts", "lines", "reannounce_live", "replies_stray", "post_close_replies")})
     # real one-second timers: a timer must never speak for a client that was withdrawn, registered, decided or replaced
     from checks import c10
-    tres = vcommon.pmap(c10.timer_worker, [dict(build=b, seed=chk.seed * 31 + k, rounds=1, props=PROPS) for k in range(2 if tier == "quick" else 16)])
+    tres = vcommon.pmap(c10.timer_worker, [dict(build=(bplain if k % 2 else b), seed=chk.seed * 31 + k, rounds=1, props=PROPS) for k in range(2 if tier == "quick" else 16)])
     prun.fold(chk, "C01", tres)
     chk.rule = ("random lock-step histories (%d events) over 3-5 ids with heavy reuse: announce / re-announce while live / data / passwords / hurry-up / "
                 "replies of every kind / stale, duplicate and malformed-tag replies / hook-fired timeouts / disconnect / registered, with and without the class "
